@@ -17,7 +17,9 @@
 (* documented precondition of the API).                                    *)
 (***************************************************************************)
 EXTENDS Integers, Sequences, FiniteSets, TLC
-CONSTANTS K, MaxCalls, MaxDs, Sigma, Names, Fills, EmitOn
+CONSTANTS K, MaxCalls, MaxDs, Sigma, Names, Fills, EmitOn,
+          LookupsAnywhere   \* TRUE: field lookups are issued in array context too (outside the documented precondition;
+                            \* used for C16 only: whatever the call, it must return)
 
 PI == INSTANCE ParserImpl
 F  == INSTANCE BinsonFormat
@@ -100,8 +102,8 @@ Run ==
      \/ \E op \in {"raw", "tw", "twe"} : Do(op, "", PI!GetRaw(P, buf), TRUE, 2)
      \/ Do("gn", "", GetNameR, FALSE, 0)
      \/ Do("fN", "", PI!FieldNull(P), TRUE, 0)
-     \/ (InObjNow /\ \E nm \in Names : Do("f", F!HexStr(nm), PI!Field(P, buf, nm), TRUE, Len(buf)))
-     \/ (InObjNow /\ \E nm \in Names : Do("fe", F!HexStr(nm) \o ".6", PI!FieldEnsure(P, buf, nm, "integer"), TRUE, Len(buf)))
+     \/ ((LookupsAnywhere \/ InObjNow) /\ \E nm \in Names : Do("f", F!HexStr(nm), PI!Field(P, buf, nm), TRUE, Len(buf)))
+     \/ ((LookupsAnywhere \/ InObjNow) /\ \E nm \in Names : Do("fe", F!HexStr(nm) \o ".6", PI!FieldEnsure(P, buf, nm, "integer"), TRUE, Len(buf)))
      \/ (P.ptype \in {"O", "A"} /\ LET r == PI!Verify(P, buf) IN Again("v", "", r.P, r.ret, P.ptype))
      \/ (P.ptype \in {"O", "A"} /\ LET r == PI!ResetCall(P, buf) IN Again("rs", "", r.P, r.ret, P.ptype))
      \/ \E root \in {"O", "A"} : LET i == PI!InitImpl(P, buf, root) IN Again("I", root \o F!HexStr(buf), i.P, i.ok, root)
